@@ -10,7 +10,7 @@
 (*                                                                         *)
 (* s_hist is a history variable: it only records, it never guards.         *)
 (***************************************************************************)
-EXTENDS CactusKev, HandRankSpec, CkcDeck, ChenSpec, BitSets, Containers, Json
+EXTENDS CactusKev, HandRankSpec, CkcDeck, ChenSpec, ParseSpec, BitSets, Containers, Json
 
 CONSTANTS MaxSteps, Seeds
 
@@ -64,6 +64,27 @@ ValidA == /\ Step("c_valid", [x |-> 0], [valid |-> ValidSpec(s_cont), blank |-> 
 ToSetA == LET x == FromHand(s_cont) IN
           /\ s_set' = x /\ Step("c_to_set", [x |-> 0], [post |-> x]) /\ UNCHANGED <<s_cont, s_table>>
 
+MarkNames == <<"pair", "trips", "quads">>
+MarkSlotA ==
+    LET i == Rnd(0) % Len(s_cont)
+        m == PickFrom(MarkNames, 1)
+        a == SetSlot(s_cont, i, Mark(s_cont[i + 1], m)) IN
+    /\ s_cont' = a /\ Step("c_mark", [slot |-> i, mark |-> m], [post |-> a])
+    /\ UNCHANGED <<s_set, s_table>>
+Select5A ==
+    /\ Len(s_cont) >= 6
+    /\ LET perm == [k \in 1..5 |-> Rnd(k) % Len(s_cont)] IN
+       Step("c_select5", [perm |-> perm], [res |-> SelectSlots(s_cont, perm)])
+    /\ UNCHANGED <<s_cont, s_set, s_table>>
+(* the public product-search helper, with keys related to the live objects *)
+FindA ==
+    LET key == CASE Rnd(0) % 4 = 0 -> 0
+                 [] Rnd(0) % 4 = 1 -> ProductsTable[(Rnd(1) % NProducts) + 1]
+                 [] Rnd(0) % 4 = 2 -> IF Len(s_cont) = 5 THEN MultiplyPrimes(s_cont) ELSE 47
+                 [] OTHER -> Rnd(1) IN
+    /\ Step("x_find", [key |-> key], [index |-> Find(key)])
+    /\ UNCHANGED <<s_cont, s_set, s_table>>
+
 (* card sets *)
 FoldA == LET b == PickFrom(BitSeq, 0) x == FoldIn(s_set, LimbsOfBit(b)) IN
     /\ s_set' = x /\ Step("s_fold", [arg |-> LimbsOfBit(b)], [post |-> x]) /\ UNCHANGED <<s_cont, s_table>>
@@ -72,6 +93,10 @@ PeelA == LET p == Peel(s_set) IN
     /\ UNCHANGED <<s_cont, s_table>>
 InfoA == /\ Step("s_info", [x |-> 0], [count |-> Count(s_set), valid |-> IsValidSet(s_set), single |-> IsSingle(s_set)])
          /\ UNCHANGED <<s_cont, s_set, s_table>>
+HasA == LET S == {SetMin(SomeBits), PickFrom(BitSeq, 0), PickFrom(BitSeq, 1)}
+            arg == LimbsOfBitSet(IF Rnd(2) % 2 = 0 THEN {PickFrom(BitSeq, 0)} ELSE S) IN
+        /\ Step("s_has", [arg |-> arg], [res |-> Has(s_set, arg)])
+        /\ UNCHANGED <<s_cont, s_set, s_table>>
 TwoA == LET r == TwoFromBitsSpec(s_set) IN
         /\ Step("s_two", [x |-> 0], [kind |-> r.kind, cards |-> r.cards])
         /\ (r.kind = "ok" => s_cont' = r.cards) /\ (r.kind # "ok" => UNCHANGED s_cont)
@@ -97,6 +122,29 @@ ChenA == /\ Len(s_table) >= 2
 TableToContainerA == /\ Len(s_table) \in Sizes
                      /\ s_cont' = s_table /\ Step("t_to_cont", [x |-> 0], [post |-> s_table])
                      /\ UNCHANGED <<s_set, s_table>>
+(* render the table as text (letters or glyphs, a drawn separator) and parse it back into the container *)
+Separators == <<32, 9, 160, 10>>
+RECURSIVE RenderFrom(_, _, _, _)
+RenderFrom(t, i, sep, glyph) ==
+    IF i > Len(t) THEN <<>>
+    ELSE (IF i > 1 THEN <<sep>> ELSE <<>>)
+         \o (IF (glyph + i) % 2 = 0 THEN RenderGlyph(CardRankOf(t[i]), CardSuitOf(t[i])) ELSE RenderLetter(CardRankOf(t[i]), CardSuitOf(t[i])))
+         \o RenderFrom(t, i + 1, sep, glyph)
+ParseTableA ==
+    /\ Len(s_table) \in Sizes
+    /\ LET text == RenderFrom(s_table, 1, PickFrom(Separators, 0), Rnd(1) % 2)
+           r == ParseHand(Len(s_table), text) IN
+       /\ Assert(r.kind = "ok" /\ r.words = s_table, <<"SPEC ERROR: render / parse round trip", s_table>>)
+       /\ s_cont' = s_table
+       /\ Step("t_parse", [n |-> Len(s_table), s |-> text], [post |-> s_table])
+    /\ UNCHANGED <<s_set, s_table>>
+(* compare two hand ranks converted from drawn values *)
+CmpValues == <<0, 1, 10, 11, 166, 167, 1599, 1600, 3325, 3326, 7461, 7462, 7463, 32768, 65535>>
+CompareA ==
+    LET a == PickFrom(CmpValues, 0) b == PickFrom(CmpValues, 1)
+        bothInvalid == IsInvalid(R(a)) /\ IsInvalid(R(b)) IN
+    /\ Step("x_cmp", [a |-> a, b |-> b], [cmp |-> IF bothInvalid /\ a # b THEN "NotEqual" ELSE Cmp(R(a), R(b))])
+    /\ UNCHANGED <<s_cont, s_set, s_table>>
 RankContainerA ==
     /\ Len(s_cont) >= 5
     /\ \A i \in 1..Len(s_cont) : IsCardWord(s_cont[i]) \/ s_cont[i] = Blank
@@ -109,9 +157,9 @@ RankContainerA ==
 Finish == /\ Len(s_hist) = MaxSteps /\ ~s_done /\ s_done' = TRUE /\ UNCHANGED <<s_cont, s_set, s_table, s_hist, s_rnd>>
 Next == \/ Finish
         \/ /\ Len(s_hist) < MaxSteps /\ UNCHANGED s_done /\ NextRnd
-           /\ \/ NewContainer \/ SetSlotA \/ SortA \/ ShiftA \/ ValidA \/ ToSetA
-              \/ FoldA \/ PeelA \/ InfoA \/ TwoA
-              \/ DealA \/ ClearA \/ ChenA \/ TableToContainerA \/ RankContainerA
+           /\ \/ NewContainer \/ SetSlotA \/ SortA \/ ShiftA \/ ValidA \/ ToSetA \/ MarkSlotA \/ Select5A \/ FindA
+              \/ FoldA \/ PeelA \/ InfoA \/ TwoA \/ HasA
+              \/ DealA \/ ClearA \/ ChenA \/ TableToContainerA \/ RankContainerA \/ ParseTableA \/ CompareA
 Spec == Init /\ [][Next]_vars
 
 ---------------------------------------------------------------------------
